@@ -652,6 +652,44 @@ func run(c *mon.Ctx) {
 		c.Exhaustive(fmt.Sprintf("all sequences of %d symbols over the %d-symbol alphabet", depth, alphabet), int64(total))
 		c.StreamSeedless(fmt.Sprintf("exhaustive-depth-%d", depth), total, func(i int, r *gen.Rand) { exhaustive(c, i, dd) })
 	}
+	// trackers of their own in several goroutines: a tracker's bookkeeping is its own
+	c.Floor("concurrent.calls", 5000)
+	c.Stream("concurrent-trackers", c.N(3, 150), func(i int, r *gen.Rand) {
+		c.Concurrent("scte35.State objects of their own", 8, 300, r, func(q *gen.Rand) string {
+			st := scte35.NewState()
+			var open []D
+			pts := q.Uint64() & (1<<33 - 1)
+			for k := 3 + q.Intn(6); k > 0; k-- {
+				pts = (pts + 90000) & (1<<33 - 1)
+				// "program start - in progress" (0x17) is an out type without closing rules of its own: it closes nothing
+				d := mk(0x17, q.Uint32(), pts, true, 1, 1)
+				closed, err := st.ProcessDescriptor(d)
+				if err != nil || len(closed) != 0 {
+					return fmt.Sprintf("a 0x17 descriptor at a new signal time returned closed=%d err=%v", len(closed), err)
+				}
+				open = append(open, d)
+				if q.Chance(3) {
+					if closed, err := st.ProcessDescriptor(d); err != gots.ErrSCTE35DuplicateDescriptor || len(closed) != 0 {
+						return fmt.Sprintf("the same descriptor processed twice in a row returned closed=%d err=%v", len(closed), err)
+					}
+				}
+				got := st.Open()
+				if len(got) != len(open) {
+					return fmt.Sprintf("Open() lists %d descriptors, %d were accepted and none closed", len(got), len(open))
+				}
+				for j := range got {
+					if got[j] != open[j] {
+						return fmt.Sprintf("Open()[%d] is not the descriptor opened %d-th", j, j)
+					}
+				}
+			}
+			if closed, err := st.Close(open[0]); err != nil || len(closed) == 0 || closed[len(closed)-1] != open[0] && closed[0] != open[0] {
+				return fmt.Sprintf("Close of the first open descriptor returned %d closed, err=%v", len(closed), err)
+			}
+			return ""
+		})
+		c.Class("concurrent-trackers")
+	})
 	c.Stream("random", c.N(40000, 30000000), func(i int, r *gen.Rand) { random(c, r) })
 	c.Stream("interleaved", c.N(10000, 5000000), func(i int, r *gen.Rand) { interleaved(c, r) })
 	c.Stream("deep", c.N(300, 60000), func(i int, r *gen.Rand) { deep(c, r) })
